@@ -255,6 +255,20 @@ def _bounded_pipeline(tier, seed):
             distinct.add((ctx, clean))
             if got != want:
                 bad({'text': ctx, 'clean_qq': clean, 'fn': 'scrub_aliquots'}, got, want)
+    # ... whichever way clean_qq reaches the tract: config, keyword at parse / preprocess time, keyword False over a config True
+    import pytrs
+    for q in ('NE', 'NW', 'SE', 'SW'):
+        for cfg, kw, clean in (('', None, False), ('clean_qq', None, True), ('', True, True), ('clean_qq', False, False), ('', False, False),
+                               ('clean_qq', True, True)):
+            t = pytrs.Tract(q, trs='154n97w14', config=cfg)
+            got_qqs = t.parse(commit=False) if kw is None else t.parse(commit=False, clean_qq=kw)
+            t.preprocess(commit=True) if kw is None else t.preprocess(commit=True, clean_qq=kw)
+            ev += 1
+            distinct.add((q, cfg, kw))
+            want_pp = q + '¼' if clean else q
+            if t.pp_desc != want_pp or bool(got_qqs) != clean:
+                bad({'text': q, 'config': cfg, 'keyword clean_qq': kw, 'fn': 'Tract.parse / preprocess'}, [t.pp_desc, got_qqs],
+                    [want_pp, 'aliquots' if clean else 'no aliquots'])
     return {'evaluations': ev, 'distinct_nontrivial': len(distinct), 'violations': violations, 'samples': samples, 'exhaustive': False,
             'bound': f"{len(chains)} chains of <= 3 components x random spelling per component x 4 joiners x clean_qq on/off x {len(cfgs)} configs",
             'rule': "scrub(spelled) == canonical, scrub twice == once, Tract(spelled) == Tract(canonical) == Tract(normalised); "
